@@ -4,6 +4,8 @@ import (
 	"errors"
 	iofs "io/fs"
 	"os"
+	"path/filepath"
+	"strings"
 	"time"
 
 	"github.com/jsightapi/jsight-schema-go-library/fs"
@@ -156,8 +158,13 @@ func VerifH_IncludePath() {
 	}
 	verifStatCalls, verifReadCalls = nil, nil
 	verifFSInit()
-	if !verifrt.Symbolic() && !refNameForbidden(s) {
-		verifFSTarget(s, []byte("URL /x"))
+	if !verifrt.Symbolic() {
+		// stage the target natively the way the stat stub answered - also for a forbidden name, as long as
+		// what it denotes lies inside the temporary project directory (nothing is ever written outside it)
+		if c := filepath.Clean(verifDir + "/" + s); strings.HasPrefix(c, verifDir+"/") {
+			_ = os.MkdirAll(filepath.Dir(c), 0o755)
+			verifFSTarget(c[len(verifDir)+1:], []byte("URL /x"))
+		}
 	}
 	file := fs.NewFile(verifDir+"/root.jst", "INCLUDE "+s)
 	core := NewJApiCore(file)
